@@ -15,6 +15,7 @@ From Coq Require Import ZArith.
 From TV Require Import Num.Num Num.QNum.
 From TV Require Model.Cache Model.EngineReal Proofs.EngineReal Model.EngineRealToy Model.BlockEngineRun Model.BlockEngineRealRun.
 From TV Require Model.EngineReplayReal Proofs.EngineReplayReal.
+From TV Require Num.F32 Model.Block Model.BlockAlg Model.BlockEngine Model.BlockEngineReal Model.TaffyKey Proofs.BlockEngineReal Proofs.TaffyKey.
 Import ListNotations.
 
 (* a memoised evaluation returns what the cache-free evaluation of the same skeleton returns, keeps every cache entry
@@ -431,6 +432,49 @@ Theorem C01_real_fresh_valid :
     gskel S Lay (rcache In Out) (fresh_real S In Out Lay zero_lay k) = k.
 Proof. intros. apply RValid_fresh. Qed.
 
+(* Wave 8a (second audit, finding 1): the INSTANCE the whole-tree correspondence of the block engine runs
+   (Model/BlockEngineRealRun.v: `blr_memo f32_seqb block_pre abs_child_block`), with NO premise about the key left: the ghost comparison
+   of complete inputs uses the representation equality of binary32 (Model/TaffyKey.v f32_seqb), which IS Leibniz equality
+   (Proofs/BlockEngineReal.v bin_eqb_with_eq + TaffyKey.f32_seqb_eq), and `b_is_outer` accepts nothing.  The class "no lossy hit" the
+   evidence counts (`trees_without_lossy_hit`) is counted with exactly this ghost.  With IEEE `==` (bin_eqb = bin_eqb_with eqb) the
+   premise of the general theorem is FALSE: C01_bin_eqb_not_leibniz (+0 and -0). *)
+Theorem C01_real_block_equals_exact_when_no_lossy_hit_partial :
+  forall (pre : Block.BStyle F32.f32 -> BlockAlg.BIn F32.f32 -> BlockAlg.BIn F32.f32) (abs_child : @BlockAlg.AbsChild F32.f32)
+         f (t : @BlockEngineReal.brtree F32.f32) i o t' fe te oe te',
+    RValid _ _ _ _ BlockAlg.bi_mode BlockEngine.bn_is_none BlockEngine.hidden_child_out (BlockEngine.bl_algo pre abs_child) t ->
+    BlockEngineReal.blr_memo TaffyKey.f32_seqb pre abs_child f t i = Some (o, t') ->
+    sum_stats _ _ _ n_lossy t' = sum_stats _ _ _ n_lossy t ->
+    Valid _ _ _ _ BlockAlg.bi_mode BlockEngine.bn_is_none BlockEngine.hidden_child_out (BlockEngine.bl_algo pre abs_child) te ->
+    skel _ _ _ _ te = gskel _ _ _ t ->
+    memo _ _ _ _ BlockAlg.bi_mode (BlockEngine.bin_eqb_with TaffyKey.f32_seqb) BlockEngine.bn_is_none BlockEngine.hidden_child_out
+         BlockEngine.zero_blay (BlockEngine.bl_algo pre abs_child) fe te i = Some (oe, te') ->
+    o = oe /\ RValid _ _ _ _ BlockAlg.bi_mode BlockEngine.bn_is_none BlockEngine.hidden_child_out (BlockEngine.bl_algo pre abs_child) t'
+    /\ gskel _ _ _ t' = gskel _ _ _ t.
+Proof.
+  intros pre abs_child f t i o t' fe te oe te' HV Hm Hl HVe Hs He.
+  eapply (@memo_real_equals_exact F32.f32 _); [| |exact HV|exact Hm|exact Hl|exact HVe|exact Hs|exact He].
+  - apply TV.Proofs.BlockEngineReal.bin_eqb_with_eq. exact TV.Proofs.TaffyKey.f32_seqb_eq.
+  - apply TV.Proofs.BlockEngineReal.b_is_outer_spec.
+Qed.
+
+(* the key that compares numbers as numbers is NOT an equality of inputs over binary32 (known width +0 vs -0) *)
+Theorem C01_bin_eqb_not_leibniz :
+  exists a b : BlockAlg.BIn F32.f32, BlockEngine.bin_eqb a b = true /\ a <> b /\ BlockEngine.bin_eqb_with TaffyKey.f32_seqb a b = false.
+Proof.
+  exists (BlockAlg.mkBIn PerformLayout true (Block.mkSize (Some (F32.f_of_bits 0)) None) Block.sz_none
+                         (Block.mkSize Block.MaxContent Block.MaxContent) (Block.mkLine false false)),
+         (BlockAlg.mkBIn PerformLayout true (Block.mkSize (Some (F32.f_of_bits 2147483648)) None) Block.sz_none
+                         (Block.mkSize Block.MaxContent Block.MaxContent) (Block.mkLine false false)).
+  split; [vm_compute; reflexivity|]. split; [|vm_compute; reflexivity].
+  intros E. assert (H : BlockEngine.bin_eqb_with TaffyKey.f32_seqb
+                          (BlockAlg.mkBIn PerformLayout true (Block.mkSize (Some (F32.f_of_bits 0)) None) Block.sz_none
+                                          (Block.mkSize Block.MaxContent Block.MaxContent) (Block.mkLine false false))
+                          (BlockAlg.mkBIn PerformLayout true (Block.mkSize (Some (F32.f_of_bits 2147483648)) None) Block.sz_none
+                                          (Block.mkSize Block.MaxContent Block.MaxContent) (Block.mkLine false false)) = false)
+    by (vm_compute; reflexivity).
+  rewrite <- E in H. vm_compute in H. discriminate.
+Qed.
+
 (* non-vacuity, computed (Model/EngineRealToy.v: 6 nodes, one display:none subtree; the key forgets the lowest bit of the input
    number): the premises of the transfer theorem hold for the instance; two passes with the same root input produce no lossy hit
    and return what the exact-key memo returns on the fresh tree (24) *)
@@ -488,6 +532,8 @@ Print Assumptions C01_real_traced_memo_is_gmemo.
 Print Assumptions C01_real_sound_when_no_lossy_hit.
 Print Assumptions C01_real_equals_exact_when_no_lossy_hit_partial.
 Print Assumptions C01_real_fresh_valid.
+Print Assumptions C01_real_block_equals_exact_when_no_lossy_hit_partial.
+Print Assumptions C01_bin_eqb_not_leibniz.
 Print Assumptions C01_real_lossy_hit_refuted.
 Print Assumptions C01_real_lossy_hit_refuted_on_a_block_tree.
 End RealCache.
